@@ -72,6 +72,7 @@ struct Case {
   unsigned lg_k;
   uint64_t salt; uint64_t domain; int fixed_kind; double dup_p;
   std::vector<std::pair<uint64_t, uint64_t>> inject;   // (stream position, pool x) sorted by position
+  std::vector<std::pair<uint32_t, uint32_t>> planted;  // coupons (larger value, smaller value) of planted same-address pairs
   Model m;
   std::vector<Sk> sks;
   std::string cfg;
@@ -158,6 +159,12 @@ static void checkpoint(Case& C, Rng& r, bool final_cp) {
       count(std::string("mode_") + mode_name(nat.mode));
       count(std::string("mode_") + mode_name(nat.mode) + "_" + tn);
       if (nat.mode == M_LIST) K.seen_list = true;
+      if (nat.coupon_mode() && !m.overflow) {
+        for (auto& q : C.planted) if (m.distinct.count(q.first) && m.distinct.count(q.second))
+          count(nat.mode == M_LIST ? "same_address_pair_held_in_list_mode" : "same_address_pair_held_in_set_mode");
+      } else if (nat.mode == M_HLL) {
+        for (auto& q : C.planted) if (m.regs[cp_slot(q.first, m.lg_k)] == cp_value(q.first)) { count("same_address_pair_decides_hll_register"); break; }
+      }
       if (nat.mode == M_SET) K.seen_set = true;
       if (nat.mode == M_HLL && !K.full && K.seen_list && !K.seen_set && m.lg_k < 8) { count("lgk_lt8_list_then_hll"); K.seen_list = false; }
       if (nat.mode == M_HLL && !K.full && K.seen_set) { count("set_then_hll"); K.seen_set = false; K.seen_list = false; }
@@ -167,6 +174,7 @@ static void checkpoint(Case& C, Rng& r, bool final_cp) {
       if (nat.mode == M_HLL && K.type == 0) {
         count("hll4_hll_checkpoints");
         if (nat.cur_min >= 1) count("hll4_curmin_ge1");
+        if (nat.cur_min >= 1 && as8.err.empty()) count("hll4_curmin_gt0_read_through_hll8_copy");
         if (nat.cur_min >= 2) count("hll4_curmin_ge2");
         if (nat.cur_min >= 4) count("hll4_curmin_ge4");
         if (nat.aux_count > 0) count("hll4_aux_present");
@@ -215,6 +223,7 @@ static void checkpoint(Case& C, Rng& r, bool final_cp) {
         VF_CHECK(rel_eq(c.get_estimate(), K.est, 1e-12), kp + "|estimate-differs",
                  ctx + " copy=" + str(c.get_estimate()) + " source=" + str(K.est));
         count("converted_copies");
+        if (K.type == 0 && nat.err.empty() && nat.mode == M_HLL && nat.cur_min >= 1) count(std::string("hll4_curmin_gt0_converted_to_") + type_name(t));
         if (dc.err.empty() && dc.mode == M_HLL && t == 0 && dc.aux_count > 0) count("converted_to_hll4_with_aux");
         if (dc.err.empty() && dc.mode == M_HLL && t == 0 && dc.cur_min > 0) count("converted_to_hll4_curmin_gt0");
       }
@@ -293,11 +302,36 @@ void run_case(uint64_t idx, Rng& r) {
   C.domain = r.chance(0.2) ? std::max<uint64_t>(1, n / 3) : (1ULL << 40);
   // injected inputs with rare high coupon values (aux exceptions at small cur_min)
   const bool do_inject = lg_k <= 12 && n >= 4 && r.chance(0.5);
+  std::set<uint64_t> used;
+  // planted pairs of inputs whose coupons share the full 26-bit address but differ in value: two distinct coupons in
+  // LIST/SET mode (in either arrival order), one slot keeping the larger value in HLL mode
+  if (n >= 2 && r.chance(0.4)) {
+    const auto& pp = same_address_pairs();
+    const uint64_t npairs = 1 + r.below(3);
+    for (uint64_t i = 0; i < npairs && !pp.empty(); ++i) {
+      const AddrPair& ap = pp[r.below(pp.size())];
+      const uint64_t zone = r.below(3);
+      const uint64_t span = zone == 0 ? std::min<uint64_t>(n, 6) : (zone == 1 ? std::min<uint64_t>(n, std::max<uint64_t>(thr, 6)) : n);
+      uint64_t p1 = r.below(span), p2 = r.below(span);
+      if (p1 == p2 || used.count(p1) || used.count(p2)) continue;
+      if (p1 > p2) std::swap(p1, p2);
+      bool dup_pair = false;
+      for (auto& q : C.planted) if (q.first == ap.c_hi) dup_pair = true;
+      if (dup_pair) continue;
+      used.insert(p1); used.insert(p2);
+      const bool larger_first = r.coin();
+      C.inject.emplace_back(p1, larger_first ? ap.x_hi : ap.x_lo);
+      C.inject.emplace_back(p2, larger_first ? ap.x_lo : ap.x_hi);
+      C.planted.emplace_back(ap.c_hi, ap.c_lo);
+      count("planted_same_address_coupon_pairs");
+      count(larger_first ? "planted_pair_larger_value_first" : "planted_pair_smaller_value_first");
+    }
+    std::sort(C.inject.begin(), C.inject.end());
+  }
   if (do_inject) {
     const auto& pool = hi_pool();
     const uint64_t cnt = 1 + r.below(6);
     const uint64_t span = std::min<uint64_t>(n, r.chance(0.5) ? 4 * k : n);
-    std::set<uint64_t> used;
     for (uint64_t i = 0; i < cnt; ++i) {
       const uint64_t pos = r.below(span);
       if (!used.insert(pos).second) continue;
@@ -310,7 +344,7 @@ void run_case(uint64_t idx, Rng& r) {
   const bool do_recopy = r.chance(0.3);
   const bool shuffle_b = r.coin();
   C.cfg = "lg_k=" + std::to_string(lg_k) + " n=" + std::to_string(n) + " dup=" + str(C.dup_p) + " kind=" + std::to_string(C.fixed_kind) +
-    " domain=" + std::to_string(C.domain) + " inject=" + std::to_string(C.inject.size()) + " reset_history=" + std::to_string(do_reset_history);
+    " domain=" + std::to_string(C.domain) + " inject=" + std::to_string(C.inject.size()) + " same_addr_pairs=" + std::to_string(C.planted.size()) + " reset_history=" + std::to_string(do_reset_history);
   describe(C.cfg);
   C.m.init(lg_k);
 
